@@ -26,7 +26,7 @@ func init() {
 	register(&c11{base{
 		id:          "C11",
 		level:       lvlExploration,
-		rule:        "each case builds one n x n matrix M of a structured kind (random, vandermonde, cauchy, permutation, triangular, rank-deficient product, repeated/combined rows, P*L*U with zero leading pivots, singular only at the last pivot) plus an n x nc right-hand side N, then compares Inverse, RowReduceForInverse(M,N) and Times with an independent elimination (last-row pivoting) and checks operands are unchanged; a key is (kind, n, nc, singular?); trivial = nothing (every case exercises the oracle). Kinds unit-upper, unit-lower, ones-and-zeros.. Self-products M.Times(M).",
+		rule:        "each case builds one n x n matrix M of a structured kind (random, vandermonde, cauchy, permutation, triangular, rank-deficient product, repeated/combined rows, P*L*U with zero leading pivots, singular only at the last pivot) plus an n x nc right-hand side N, then compares Inverse, RowReduceForInverse(M,N) and Times with an independent elimination (last-row pivoting) and checks operands are unchanged; a key is (kind, n, nc, singular?); trivial = nothing (every case exercises the oracle). Kinds unit-upper, unit-lower, ones-and-zeros.. Self-products M.Times(M). Matrices of 2^16 elements and more (n = 256, 260; right-hand sides of 13 000-40 000 columns).",
 		assumptions: append([]string{"reference: internal/ref/gf16 matrices (own elimination with a different pivot rule, own field product)"}, commonAssumptions...),
 		opts:        core.WorkerOpts{CrashIsViolation: true, WallSeconds: 1800},
 	}})
